@@ -16,13 +16,14 @@ REQUIRED = ["histories", "checkpoints", "identity_changes_after_pin", "refusals_
             "restarts_between_pin_and_change", "autotrust:on", "autotrust:off", "group_messages"]
 TIMEOUT = {"quick": 600, "thorough": 7200}
 
-EVENTS = ["a>x", "a>x", "x>a", "x>a", "group-a", "group-x", "reinstall-x", "restart-a", "restart-x", "b>x"]
+EVENTS = ["a>x", "a>x", "x>a", "x>a", "group-a", "group-x", "reinstall-x", "restart-a", "restart-x", "b>x", "x>a-undecryptable"]
 
 
 def one_history(acc, seed, tag):
     from vf import world
     from yowsup.layers.protocol_messages.protocolentities import TextMessageProtocolEntity
     from yowsup.layers.axolotl.props import PROP_IDENTITY_AUTOTRUST
+    from yowsup.layers.protocol_messages.protocolentities.attributes.attributes_message_meta import MessageMetaAttributes
     r = gen.rng(seed, ID, tag)
     autotrust = r.random() < 0.5
     three = r.random() < 0.6
@@ -41,6 +42,9 @@ def one_history(acc, seed, tag):
     events = [r.choice(EVENTS) for _ in range(n)]
     if "reinstall-x" not in events and r.random() < 0.8:
         events[r.randrange(n // 2, n)] = "reinstall-x"
+    if r.random() < 0.25:
+        # the first thing A ever gets from X cannot be decrypted (identity presented, no session), then X reinstalls
+        events[0:0] = ["x>a-undecryptable", "reinstall-x", "a>x"]
     w = {"tag": tag, "autotrust": autotrust, "accounts": len(phones), "events": events}
     acc.count("autotrust:" + ("on" if autotrust else "off"))
 
@@ -69,9 +73,16 @@ def one_history(acc, seed, tag):
     first_seen = [None]
     sent = []                       # (uid marker, sender, target, identity index of X at send time, pinned index at send time)
 
-    def send(sender, target):
+    def send(sender, target, undecryptable=False):
         uid[0] += 1
         mk = "MK%dX%s" % (uid[0], gen.s_from(r, gen.ALNUM, 6))
+        if undecryptable:
+            # every transmission of this message reaches the recipient damaged: it is never shown, but its envelope has
+            # presented the sender's identity
+            mid = "C17U%d%s" % (uid[0], gen.s_from(r, gen.ALNUM, 5))
+            W.server.faults[mid] = {"corrupt_all": True}
+            acc.count("undecryptable_messages")
+            return {"op": "send", "who": sender, "kind": "text", "uid": mk, "build": lambda: TextMessageProtocolEntity(mk, message_meta_attributes=MessageMetaAttributes(id=mid, recipient=target))}
         sent.append({"mk": mk, "sender": sender, "target": target, "xid": len(ids) - 1, "pin": pin, "first_ok": None})
         return {"op": "send", "who": sender, "kind": "text", "uid": mk, "build": lambda: TextMessageProtocolEntity(mk, to=target)}
 
@@ -85,6 +96,8 @@ def one_history(acc, seed, tag):
                 run_actions([send(A, "%s@s.whatsapp.net" % X)])
             elif ev == "x>a":
                 run_actions([send(X, "%s@s.whatsapp.net" % A)])
+            elif ev == "x>a-undecryptable":
+                run_actions([send(X, "%s@s.whatsapp.net" % A, undecryptable=True)])
             elif ev == "b>x":
                 if not three:
                     continue
